@@ -39,6 +39,7 @@ type Runner struct {
 	Reexecs        int
 	FollowerChecks int
 	FreshReplays   int
+	Adversarial    int
 	etxIDs         map[string]int
 	etxEmitted     map[int]etxRec
 }
@@ -260,6 +261,24 @@ func (r *Runner) RandomContent(n int) (submitted int) {
 			}
 			if len(outs) == 0 {
 				continue
+			}
+			// adversarial variant (1 in 8): the same outpoint named twice, signed by the owner for both slots, outputs worth
+			// up to twice the input. The pool may take it or not; the worker must never build an invalid block from it.
+			if len(ins) == 1 && r.R.Intn(8) == 0 {
+				ins = append(ins, ins[0])
+				extra := e.Qi[perm[len(perm)-1]]
+				if !inAddrs[string(extra.Addr.Bytes())] && u.Denom >= 1 {
+					dup := false
+					for _, o := range outs {
+						if string(o.Address) == string(extra.Addr.Bytes()) {
+							dup = true
+						}
+					}
+					if !dup {
+						outs = append(outs, types.TxOut{Denomination: u.Denom - 1, Address: extra.Addr.Bytes()})
+					}
+				}
+				r.Adversarial++
 			}
 			tx, err := wallet.QiTx(e.Signer, e.ChainID, ins, outs, nil, nil)
 			if err != nil {
@@ -611,6 +630,19 @@ func (r *Runner) WarmUp() (int, error) {
 	if err = r.Fund(40); err != nil {
 		return head, err
 	}
+	if r.E.OwnerContract != nil {
+		dep := r.E.Quai[len(r.E.Quai)-1]
+		// go-quai requires the address of the contract to be created in the transaction's access list
+		inner := &types.QuaiTx{ChainID: r.E.ChainID, Nonce: 0, GasPrice: r.gasPrice(), Gas: 2000000, To: nil, Value: big.NewInt(0), Data: r.E.OwnerInit,
+			AccessList: types.AccessList{{Address: *r.E.OwnerContract}}}
+		tx, terr := types.SignTx(types.NewTx(inner), r.E.Signer, dep.Priv)
+		if terr != nil {
+			return head, terr
+		}
+		if terr = r.E.AddTx(tx); terr != nil {
+			return head, fmt.Errorf("deploying the lockup-owner contract: %w", terr)
+		}
+	}
 	step(-1)
 	step(mininet.Prime)
 	for i := 0; i < 40 && err == nil; i++ {
@@ -843,4 +875,15 @@ func (r *Runner) TrimSpend(depth uint64) (bool, error) {
 	ev["trimspend"] = true
 	spentNow := rawdb.GetUTXO(e.Net.DBs[mininet.Zone], tx1.Hash(), 0) == nil
 	return spentNow && e.Height() == created+depth, nil
+}
+
+// LockupEntries counts the distinct 'cl' record versions observed over the whole run.
+func (r *Runner) LockupEntries() int {
+	n := 0
+	for _, k := range r.names {
+		if len(k) > 0 && k[0] == 'l' {
+			n++
+		}
+	}
+	return n
 }
